@@ -31,6 +31,9 @@ def check(ctx):
     arrival_terminal(ctx, P, iters)
     records_append_only(ctx, P)
     same_instant(ctx, P, views, iters)
+    # a stale or wrong entry in a destination's blocked_queue sends a later customer to a node its record does not name (shared instances)
+    from . import c07
+    c07.fifo(ctx, P, views, iters)
     ctx.assume("in-repo routers return elements of simulation.nodes (C09)")
 
 
